@@ -271,7 +271,14 @@ def gen_value(rng, marshal, depth):
         return [gen_value(rng, marshal, depth - 1) for _ in range(n)]
     if r < 0.8:
         n = rng.choice([1, 2, 3])
-        return tuple(gen_value(rng, marshal, depth - 1) for _ in range(n))
+        t = tuple(gen_value(rng, marshal, depth - 1) for _ in range(n))
+        if rng.random() < 0.2:
+            # the SAME container object reached twice (a shared row, shared options): a value is what it contains,
+            # sharing is not recursion
+            c = [x for x in t if isinstance(x, (list, dict, tuple))]
+            shared = c[0] if c else [1, 2]
+            t = t + (shared,) if c else (shared, shared)
+        return t
     n = rng.choice([0, 1, 2, 3])
     d = {}
     kproto = rng.choice(['s', 'i', 'y'])
